@@ -45,6 +45,22 @@ fn main() {
             "--replay-dir" => replay_dir = PathBuf::from(val()),
             "--regressions" => regressions = PathBuf::from(val()),
             "--replay" => replay = Some(PathBuf::from(val())),
+            "--fuzz-decode" => {
+                // qcheck --fuzz-decode <artifact> : prints a replay file for a
+                // libFuzzer input of the C18 target
+                let f = val();
+                let data = std::fs::read(&f).unwrap_or_default();
+                let (case, v) = qcheck::cases::c18::fuzz_decode(&data);
+                let msg = match v {
+                    Verdict::Fail(m) => m,
+                    other => format!("{:?}", other),
+                };
+                println!(
+                    "{}",
+                    serde_json::json!({"property": "C18", "backend": qcheck::amt::BACKEND, "case": case, "message": msg, "origin": format!("libFuzzer artifact {}", f)})
+                );
+                return;
+            }
             "--list" => {
                 for p in qcheck::cases::all() {
                     println!("{}", p.id());
